@@ -1996,13 +1996,14 @@ class System:
             configs in a dict are values.
         """
         config_dict = configparser.ConfigParser()
-        config_dict[self.__class__.__name__] = self.config.as_dict()
+        # refresh the cached dictionaries: fields may have been assigned directly (``ss.TDS.config.tf = 5``)
+        config_dict[self.__class__.__name__] = self.config.as_dict(refresh=True)
 
         all_with_config = OrderedDict(list(self.routines.items()) +
                                       list(self.models.items()))
 
         for name, instance in all_with_config.items():
-            cfg = instance.config.as_dict()
+            cfg = instance.config.as_dict(refresh=True)
             if len(cfg) > 0:
                 config_dict[name] = cfg
         return config_dict
